@@ -1050,6 +1050,104 @@ fn sub_files(tier: Tier, subs: &mut Vec<Sub>) {
     let _ = render_row;
 }
 
+/// A line program may be older than the unit that refers to it (a version 2-4 program in a
+/// version 5 unit is accepted by `LineProgram::write`): the program must then still be
+/// written in ITS OWN version, format and file numbering.
+fn sub_unit_encoding_differs(_tier: Tier, subs: &mut Vec<Sub>) {
+    push_sub(subs, Sub::new("unit-encoding-differs-from-program", 4 * 4 * 2 * 2 * 2 * 2, "line program version pv in {2,3,4,5} x unit version uv in {2,3,4,5} x program format {32,64} x unit format {32,64} x address size {4,8} x byte order: three files in two directories, four rows that switch file each time; LineProgram::write(unit encoding) must fail with an error when uv < 5 <= pv and otherwise emit a version-pv program whose rows resolve (through the header's own file table) to the files the rows were generated with", move |ctx, i| {
+        let mut m = Mix(i);
+        let big = m.flag();
+        let asz = if m.flag() { 8u8 } else { 4 };
+        let ufmt = if m.flag() { Format::Dwarf64 } else { Format::Dwarf32 };
+        let pfmt = if m.flag() { Format::Dwarf64 } else { Format::Dwarf32 };
+        let uv = [2u16, 3, 4, 5][m.take(4) as usize];
+        let pv = [2u16, 3, 4, 5][m.take(4) as usize];
+        let penc = Encoding { version: pv, format: pfmt, address_size: asz };
+        let uenc = Encoding { version: uv, format: ufmt, address_size: asz };
+        let case = || format!("program {} written for unit {}", render_enc(&penc, big), render_enc(&uenc, big));
+        ctx.eval(1);
+        let Ok(mut p) = guard(|| LineProgram::new(penc, LineEncoding::default(), LineString::String(b"/wd".to_vec()), None, LineString::String(b"main.c".to_vec()), None)) else {
+            ctx.fail("LineProgram::new", "new", "panic", case());
+            return;
+        };
+        let inc = p.add_directory(LineString::String(b"/inc".to_vec()));
+        let wd = p.default_directory();
+        let f_main = p.add_file(LineString::String(b"main.c".to_vec()), wd, None);
+        let f_a = p.add_file(LineString::String(b"a.h".to_vec()), inc, None);
+        let f_b = p.add_file(LineString::String(b"b.h".to_vec()), inc, None);
+        let plan: [(FileId, &[u8], u64); 4] = [(f_a, b"a.h", 11), (f_b, b"b.h", 12), (f_main, b"main.c", 13), (f_a, b"a.h", 14)];
+        p.begin_sequence(Some(Address::Constant(0x1000)));
+        for (k, (f, _, line)) in plan.iter().enumerate() {
+            p.row().address_offset = 4 * k as u64;
+            p.row().file = *f;
+            p.row().line = *line;
+            p.generate_row();
+        }
+        p.end_sequence(0x20);
+        let mut ls = LineStringTable::default();
+        let mut st = StringTable::default();
+        let r = guard(|| {
+            let mut dl = DebugLine::from(EndianVec::new(endian(big)));
+            p.write(&mut dl, uenc, &mut ls, &mut st).map(|_| dl.slice().to_vec())
+        });
+        let must_fail = uv < 5 && pv >= 5;
+        let bytes = match r {
+            Err(pn) => return crate::fail_panic(ctx, "LineProgram::write", &pn, case()),
+            Ok(Err(_)) if must_fail => {
+                ctx.outcome("unitenc:refused-v5-program-in-older-unit");
+                return;
+            }
+            Ok(Err(e)) => {
+                ctx.fail("LineProgram::write", "unit-encoding-differs", "unexpected-error", format!("{}: {:?}", case(), e));
+                return;
+            }
+            Ok(Ok(b)) if must_fail => {
+                ctx.fail("LineProgram::write", "unit-encoding-differs", "wrote-v5-program-for-older-unit", format!("{}: {}", case(), mcx::hex(&b)));
+                return;
+            }
+            Ok(Ok(b)) => b,
+        };
+        ctx.nontriv(1);
+        let res = guard(|| -> Result<(), String> {
+            let dl = gimli::DebugLine::new(&bytes, endian(big));
+            let prog = dl.program(DebugLineOffset(0), asz, None, None).map_err(|e| format!("header: {:?}", e))?;
+            let h = prog.header().clone();
+            if h.version() != pv || h.format() != pfmt || h.address_size() != asz {
+                return Err(format!("header reads version {} format {:?} address size {}", h.version(), h.format(), h.address_size()));
+            }
+            let mut rows = prog.rows();
+            let mut k = 0usize;
+            while let Some((hh, r)) = rows.next_row().map_err(|e| format!("rows: {:?}", e))? {
+                if r.end_sequence() {
+                    if r.address() != 0x1020 {
+                        return Err(format!("end of sequence at {:#x}", r.address()));
+                    }
+                    continue;
+                }
+                let (_, name, line) = plan.get(k).ok_or("more rows than generated")?;
+                let f = r.file(hh).ok_or_else(|| format!("row {}: no file entry for index {}", k, r.file_index()))?;
+                let got = match f.path_name() {
+                    gimli::AttributeValue::String(s) => s.slice().to_vec(),
+                    other => return Err(format!("row {}: path form {:?}", k, other)),
+                };
+                if got != *name || r.line().map(|l| l.get()) != Some(*line) || r.address() != 0x1000 + 4 * k as u64 {
+                    return Err(format!("row {}: file {:?} line {:?} address {:#x}; generated with file {:?} line {} address {:#x}", k, String::from_utf8_lossy(&got), r.line(), r.address(), String::from_utf8_lossy(name), line, 0x1000 + 4 * k as u64));
+                }
+                k += 1;
+            }
+            if k != plan.len() {
+                return Err(format!("{} rows read back, {} generated", k, plan.len()));
+            }
+            Ok(())
+        });
+        match res {
+            Err(pn) => crate::fail_panic(ctx, "read-back", &pn, case()),
+            Ok(Err(e)) => ctx.fail("LineProgram::write", "unit-encoding-differs", "rows-or-files-read-back-differently", format!("{}: {} section={}", case(), e, mcx::hex(&bytes))),
+            Ok(Ok(())) => ctx.outcome(if pv != uv || pfmt != ufmt { "unitenc:differing-encodings-ok" } else { "unitenc:same-encoding-ok" }),
+        }
+    }));
+}
+
 /// The writer refuses what it cannot represent with an error.
 fn sub_refusals(_tier: Tier, subs: &mut Vec<Sub>) {
     push_sub(subs, Sub::new("refusals", 4 * 3, "max_ops 2 under versions 2,3 (error NeedVersion(4)), mixed string forms in one version 5 table (error LineStringFormMismatch), unit encoding with another address size / older version than a version 5 program (error IncompatibleLineProgramEncoding): an error, never a silently different program", move |ctx, i| {
@@ -1116,6 +1214,7 @@ pub fn def(tier: Tier) -> CheckDef {
     sub_boundary(tier, &mut subs);
     sub_files(Tier::Thorough, &mut subs); // cheap: thorough bounds in both tiers
     sub_refusals(tier, &mut subs);
+    sub_unit_encoding_differs(tier, &mut subs);
     CheckDef {
         level: "exploration",
         rule: "exhaustive enumeration of the writer call sequences stated per sub-space in coverage.bounds; every case drives the real gimli::write::LineProgram, serialises it, reads the bytes back with gimli::read (decided by C04) and compares every row field / table entry with the values handed to the writer; evaluations = (line advance, operation advance) pairs resp. programs written; non-trivial = those whose read-back was compared completely; cases are distinct by construction of the index".into(),
@@ -1128,6 +1227,6 @@ pub fn def(tier: Tier) -> CheckDef {
             "line numbers above 2^32 and operation advances the reader cannot hold in 64 bits are outside the enumerated space".into(),
         ],
         subs,
-        required_outcomes: ["rows:equal", "grid:unit-row-compared", "struct:begin-some", "struct:begin-none", "struct:set_address", "struct:implicit", "struct:two-sequences", "struct:mid-set_address-same", "struct:bare-end", "struct:end-advance", "mid-set_address:delta-reading", "addr:1", "addr:2", "addr:4", "addr:8", "boundary:compared", "files:inline", "files:line_strp", "files:strp", "files:v5", "files:v2-4", "files:all-optional-fields", "files:refused-string-form-before-v5", "refusal:error", "refusal:not-needed"].iter().map(|s| s.to_string()).collect(),
+        required_outcomes: ["rows:equal", "grid:unit-row-compared", "struct:begin-some", "struct:begin-none", "struct:set_address", "struct:implicit", "struct:two-sequences", "struct:mid-set_address-same", "struct:bare-end", "struct:end-advance", "mid-set_address:delta-reading", "addr:1", "addr:2", "addr:4", "addr:8", "boundary:compared", "files:inline", "files:line_strp", "files:strp", "files:v5", "files:v2-4", "files:all-optional-fields", "files:refused-string-form-before-v5", "refusal:error", "refusal:not-needed", "unitenc:differing-encodings-ok", "unitenc:refused-v5-program-in-older-unit"].iter().map(|s| s.to_string()).collect(),
     }
 }
